@@ -2010,6 +2010,8 @@ class StateEngine(object):
                                 state_machine, state_type, state.get("Next"), event
                             )
                             if error_type:
+                                # Retry and Catch work on the raw input.
+                                event["data"] = data
                                 handle_error(state, error_type, error_message)
 
                             self.event_dispatcher.acknowledge(id)
@@ -3120,6 +3122,8 @@ class StateEngine(object):
                             state_machine, state_type, state.get("Next"), event
                         )
                         if error_type:
+                            # Retry and Catch work on the raw input.
+                            event["data"] = data
                             handle_error(state, error_type, error_message)
 
                         self.event_dispatcher.acknowledge(id)
@@ -3453,6 +3457,12 @@ class StateEngine(object):
                     state_machine, state_type, state.get("Next"), event
                 )
                 if error_type:
+                    # Retry and Catch work on the raw input.
+                    event["data"] = data
+                    if retry_count:
+                        context_state["RetryCount"] = retry_count
+                    if retry_timeout:
+                        context_state["RetryTimeout"] = retry_timeout
                     handle_error(state, error_type, error_message)
 
             """
